@@ -7,6 +7,7 @@ import StunVerif.Lemmas.Police
 import StunVerif.Gen.Attr
 import StunVerif.Props.C03
 import StunVerif.Props.C16
+import StunVerif.Lemmas.PoliceResp
 namespace StunVerif.C16
 open StunVerif
 
@@ -19,7 +20,39 @@ theorem unknown_resp_shape (b : Bytes) (m : Msg) (u : List Nat) (hp : msgFromByt
       m'.attribute .errorCode = .ok (.errorCode 420 (asciiBytes "Unknown Attributes")) ∧
       m'.attribute .unknownAttributes = .ok (.unknownAttributes u) ∧
       m'.attribute .software = .ok (.software (asciiBytes "stun-types")) := by
-  sorry
+  have _ := hp
+  obtain ⟨hne, hl, ht⟩ := hu
+  have hr := unknownAttributesResp_reach constHashes m u hne hl ht
+  have hs := unknownAttributesResp_byteLen m u hne hl
+  obtain ⟨hpb, hty, htid, _, hiter⟩ :=
+    build_parse constHashes constHashes_ok _ hr hs
+  have hT : (unknownAttributesResp m u).ty = Spec.interleave 3 m.method := by
+    rw [unknownAttributesResp_cons m u hne]
+  have hI : (unknownAttributesResp m u).tid = m.tid := by
+    rw [unknownAttributesResp_cons m u hne]
+  have hA : (unknownAttributesResp m u).attrs.map BAttr.asRaw =
+      [(AttrVal.software (asciiBytes "stun-types")).toRaw,
+       (AttrVal.errorCode 420 (asciiBytes "Unknown Attributes")).toRaw,
+       (AttrVal.unknownAttributes u).toRaw] := by
+    rw [unknownAttributesResp_cons m u hne]; rfl
+  rw [hT] at hty
+  rw [hI] at htid
+  rw [hA] at hiter
+  refine ⟨⟨(unknownAttributesResp m u).build⟩, hpb, ?_, ?_, htid, ?_, ?_, ?_⟩
+  · unfold Msg.cls; rw [hty]; exact class_interleave 3 _ (by omega)
+  · unfold Msg.method; rw [hty]; exact method_interleave 3 _ m.method_lt
+  · unfold Msg.attribute Msg.rawAttribute
+    rw [hiter]
+    simp only [List.find?, AttrVal.toRaw, AttrVal.kind, Kind.code]
+    exact fromRaw_roundtrip (.errorCode 420 (asciiBytes "Unknown Attributes")) error420_inLimit
+  · unfold Msg.attribute Msg.rawAttribute
+    rw [hiter]
+    simp only [List.find?, AttrVal.toRaw, AttrVal.kind, Kind.code]
+    exact fromRaw_roundtrip (.unknownAttributes u) (unknownAttributes_inLimit u hl ht)
+  · unfold Msg.attribute Msg.rawAttribute
+    rw [hiter]
+    simp only [List.find?, AttrVal.toRaw, AttrVal.kind, Kind.code]
+    exact fromRaw_roundtrip (.software (asciiBytes "stun-types")) software_inLimit
 
 /-- the 400 response -/
 theorem bad_resp_shape (b : Bytes) (m : Msg) (hp : msgFromBytes b = .ok m) :
@@ -27,6 +60,32 @@ theorem bad_resp_shape (b : Bytes) (m : Msg) (hp : msgFromBytes b = .ok m) :
       m'.cls = 3 ∧ m'.method = m.method ∧ m'.tid = m.tid ∧
       m'.attribute .errorCode = .ok (.errorCode 400 (asciiBytes "Bad Request")) ∧
       m'.hasAttribute 0x000A = false := by
-  sorry
+  have _ := hp
+  have hr := badRequestResp_reach constHashes m
+  have hs : (badRequestResp m).byteLen ≤ 65535 + 20 := by
+    rw [badRequestResp_byteLen]; omega
+  obtain ⟨hpb, hty, htid, _, hiter⟩ :=
+    build_parse constHashes constHashes_ok _ hr hs
+  have hT : (badRequestResp m).ty = Spec.interleave 3 m.method := by
+    rw [badRequestResp_eq m]
+  have hI : (badRequestResp m).tid = m.tid := by
+    rw [badRequestResp_eq m]
+  have hA : (badRequestResp m).attrs.map BAttr.asRaw =
+      [(AttrVal.software (asciiBytes "stun-types")).toRaw,
+       (AttrVal.errorCode 400 (asciiBytes "Bad Request")).toRaw] := by
+    rw [badRequestResp_eq m]; rfl
+  rw [hT] at hty
+  rw [hI] at htid
+  rw [hA] at hiter
+  refine ⟨⟨(badRequestResp m).build⟩, hpb, ?_, ?_, htid, ?_, ?_⟩
+  · unfold Msg.cls; rw [hty]; exact class_interleave 3 _ (by omega)
+  · unfold Msg.method; rw [hty]; exact method_interleave 3 _ m.method_lt
+  · unfold Msg.attribute Msg.rawAttribute
+    rw [hiter]
+    simp only [List.find?, AttrVal.toRaw, AttrVal.kind, Kind.code]
+    exact fromRaw_roundtrip (.errorCode 400 (asciiBytes "Bad Request")) error400_inLimit
+  · unfold Msg.hasAttribute
+    rw [hiter]
+    simp [AttrVal.toRaw, AttrVal.kind, Kind.code]
 
 end StunVerif.C16
